@@ -27,10 +27,23 @@ type Scenario struct {
 	Unsub   bool       // offer Unsubscribe of the event subscription
 	Drop    bool       // offer a server side disconnect
 	Close   bool       // offer Close()
+	// Eager lists the requests that carry a 32 MiB payload and are answered by
+	// the server (with the first message of their script) as soon as it has
+	// read the control line, i.e. while SendRequest is still publishing.
+	Eager []int
 	// Big lists the requests whose payload exceeds the server's max_payload
 	// (announced as 1024 for the scenario): publishing them fails after the
 	// reply subscription was made.
 	Big []int
+}
+
+func (sc *Scenario) eager(i int) bool {
+	for _, b := range sc.Eager {
+		if b == i {
+			return true
+		}
+	}
+	return false
 }
 
 func (sc *Scenario) big(i int) bool {
@@ -124,6 +137,9 @@ func Start(sc *Scenario) (*Run, error) {
 	MaxPayload = 1048576
 	if len(sc.Big) > 0 {
 		MaxPayload = 1024
+	}
+	if len(sc.Eager) > 0 {
+		MaxPayload = 64 << 20
 	}
 	srv, err := NewFakeServer()
 	if err != nil {
@@ -284,6 +300,9 @@ func (r *Run) Do(a string) {
 			} else {
 				r.order = append(r.order, idx)
 			}
+			if r.sc.eager(idx) && !r.dropped {
+				r.eagerModel(idx)
+			}
 			return
 		}
 		pubs, _, _ := r.srv.Snapshot()
@@ -292,6 +311,18 @@ func (r *Run) Do(a string) {
 		payload := []byte(`{}`)
 		if r.sc.big(idx) {
 			payload = []byte(`{"pad":"` + strings.Repeat("x", 4096) + `"}`)
+		}
+		if r.sc.eager(idx) {
+			payload = []byte(`{"pad":"` + strings.Repeat("x", 32<<20) + `"}`)
+			first := r.sc.Scripts[idx][0]
+			r.srv.mu.Lock()
+			r.srv.Eager = func(string) ([]byte, string) {
+				if first == "503" {
+					return nil, "503"
+				}
+				return []byte(`{"result":"` + strings.TrimPrefix(first, "reply:") + `"}`), ""
+			}
+			r.srv.mu.Unlock()
 		}
 		r.cl.SendRequest(fmt.Sprintf("call.test.%d", idx), payload, func(_ string, data []byte, err error) {
 			if err != nil {
@@ -332,6 +363,17 @@ func (r *Run) Do(a string) {
 			}
 		}
 		after := r.tq.VerifElems()
+		if r.sc.eager(idx) && !r.dropped {
+			// the answer was on its way before SendRequest returned: whatever the
+			// adapter did with it, the timer bookkeeping is judged by the invariant
+			if len(after) == len(before)+1 {
+				r.subs[idx] = after[len(after)-1]
+				r.order = append(r.order, idx)
+			}
+			r.eagerModel(idx)
+			r.settle()
+			return
+		}
 		if len(after) == len(before)+1 {
 			r.subs[idx] = after[len(after)-1]
 			r.order = append(r.order, idx)
@@ -544,6 +586,19 @@ func (r *Run) invariant(after string) {
 	}
 	if pending != queued+len(r.popped)+extended-r.stalePopped() {
 		r.fail("after %s: %d pending requests but %d queued + %d popped + %d extended timers", after, pending, queued, len(r.popped), extended)
+	}
+}
+
+// eagerModel: the first scripted message of request idx was delivered while
+// the request was being published.
+func (r *Run) eagerModel(idx int) {
+	q := r.reqs[idx]
+	msg := r.sc.Scripts[idx][q.next]
+	q.next++
+	if msg == "503" {
+		r.modelReply(idx, "ERR "+mq.ErrNoResponders.Error())
+	} else {
+		r.modelReply(idx, `{"result":"`+strings.TrimPrefix(msg, "reply:")+`"}`)
 	}
 }
 
